@@ -251,3 +251,41 @@ package kubeeventsmanager
 //@     invariant forall(k, n0, nFilter, filterLog[k] != nil && has(filteredObjects, filterLog[k].Metadata.ResourceId))
 //@     invariant forall(x, string, visited(x) ==> has(filteredObjects, x) && has(ei.cachedObjects, x) && ei.cachedObjects[x] == filteredObjects[x])
 //@     invariant forall(x, string, !visited(x) ==> has(ei.cachedObjects, x) == old(has(ei.cachedObjects, x)) && ei.cachedObjects[x] == old(ei.cachedObjects[x]))
+
+// ---- C02 / C01: every namespace found at start gets informers with a context of its own -------
+// (deleting one namespace cancels the informers of that namespace only; the others keep following
+// the cluster). Ghost log of the contexts derived with context.WithCancel, in call order.
+//@ ghost nCtx int
+//@ ghost ctxLog map[int]context.Context
+//@ ghost ctxParent map[int]context.Context
+//@ ghost ctxCancel map[int]context.CancelFunc
+//@ ghost lastStoredNs string
+//@ ghost lastStoredCancel context.CancelFunc
+//@ package context
+//@ trusted func WithCancel
+//@   modifies kubeeventsmanager.nCtx, kubeeventsmanager.ctxLog, kubeeventsmanager.ctxParent, kubeeventsmanager.ctxCancel
+//@   ghostset kubeeventsmanager.nCtx := kubeeventsmanager.nCtx + 1
+//@   ghostset kubeeventsmanager.ctxLog[kubeeventsmanager.nCtx] := result0
+//@   ghostset kubeeventsmanager.ctxParent[kubeeventsmanager.nCtx] := parent
+//@   ghostset kubeeventsmanager.ctxCancel[kubeeventsmanager.nCtx] := result1
+//@ package github.com/flant/shell-operator/pkg/kube_events_manager
+//@ trusted func (*cancelForNs).Store
+//@   modifies lastStoredNs, lastStoredCancel
+//@   ghostset lastStoredNs := key
+//@   ghostset lastStoredCancel := value
+//@ trusted func (*resourceInformer).start
+//@   modifies nothing
+
+//@ func (*monitor).Start$[m]
+//@   prop C02
+//@   requires m != nil && forall(j, 0, len(value), value[j] != nil)
+//@   requires [assumed:informers-of-a-namespace-are-distinct] forall(i, 0, len(value), forall(j, 0, len(value), i != j ==> value[i] != value[j]))
+//@   modifies nCtx, ctxLog, ctxParent, ctxCancel, lastStoredNs, lastStoredCancel, all(resourceInformer.ctx), all(resourceInformer.cancel)
+//@   let n0 := old(nCtx)
+//@   ensures [own-context-per-namespace] nCtx == n0 + 1 + len(value) && ctxParent[n0] == m.ctx
+//@   ensures [cancel-registered-for-the-namespace] lastStoredNs == nsName && lastStoredCancel == ctxCancel[n0]
+//@   ensures [informers-under-the-namespace-context] forall(j, 0, len(value), ctxParent[n0 + 1 + j] == ctxLog[n0] && value[j].ctx == ctxLog[n0 + 1 + j])
+//@   loop 1
+//@     invariant 0 <= iter() && iter() <= len(value) && nCtx == n0 + 1 + iter() && ctxParent[n0] == m.ctx && ctx == ctxLog[n0]
+//@     invariant lastStoredNs == nsName && lastStoredCancel == ctxCancel[n0]
+//@     invariant forall(j, 0, iter(), ctxParent[n0 + 1 + j] == ctxLog[n0] && value[j].ctx == ctxLog[n0 + 1 + j])
